@@ -49,6 +49,10 @@ pub fn run_c05(env: &mut Env) -> Outcome {
         cfg.nla = ctx.chance("nla", 1, 4);
         let selected = if cfg.nla { 2 } else { 1 };
         let params = if ctx.chance("params_gen", 1, 2) { ServerParams::generate(&mut ctx, selected) } else { ServerParams::default_for(selected) };
+        let mut params = params;
+        if ctx.chance("license_other_kind", 1, 3) {
+            params.license_kind = 2 + ctx.choose("license_kind_x", 3) as u8;
+        }
         let net = gen_benign_net(&mut ctx);
         // which of the six setup messages gets hurt (weights favour the big ones)
         let t1 = *ctx.pick("target", &[1usize, 1, 1, 5, 5, 0, 2, 3, 4, 1, 5, 0]);
@@ -212,7 +216,13 @@ fn hostile_base(ctx: &mut Ctx, p: &ServerParams, share_id: u32) -> (String, Wr) 
             let mut w = Wr::new();
             let n = 2 + ctx.choose("multi_n", 3);
             for _ in 0..n {
-                w.append(&build::share_data_raw(p, share_id, 0x2f, &build::set_error_info_payload(0)));
+                match ctx.choose("multi_kind", 6) {
+                    0 => { w.append(&build::deactivate_all_raw(p, share_id)); }
+                    1 => { w.append(&build::demand_active_raw(&pp, share_id)); }
+                    2 => { w.append(&build::share_data_raw(p, share_id, 0x1f, &build::synchronize_payload(uid))); }
+                    3 => { w.append(&build::share_data_raw(p, share_id, 0x28, &build::font_map_payload())); }
+                    _ => { w.append(&build::share_data_raw(p, share_id, 0x2f, &build::set_error_info_payload(0))); }
+                }
             }
             ("multi-share-control".into(), build::send_data_indication(p, &w))
         }
@@ -261,7 +271,8 @@ pub fn run_c06(env: &mut Env) -> Outcome {
         let (name, bytes, after) = {
             let mut ctx = ctxrc.borrow_mut();
             let (name, w) = hostile_base(&mut ctx, &params, share_id);
-            let m = mutate::mutate(&mut ctx, &name, &w);
+            // unusual but well-formed PDUs are delivered unmutated now and then
+            let m = if ctx.chance("deliver_unmutated", 1, 6) { mutate::Mutated { bytes: w.buf.clone(), after: After::Nothing, kind: "unusual_but_valid", desc: name.clone() } } else { mutate::mutate(&mut ctx, &name, &w) };
             ctx.fault(m.kind);
             ctx.key_str(m.kind);
             ctx.key_str(&m.desc);
@@ -393,6 +404,24 @@ pub fn run_c07(env: &mut Env) -> Outcome {
                 ctx.ev("fault", format!("sealed token: {}", desc));
                 f2.borrow_mut().push(desc.to_string());
                 crate::refsrv::cssp::build_ts_request(&crate::refsrv::cssp::TsRequest { version: 6, nego_tokens: vec![], auth_info: None, pub_key_auth: Some(tok), error_code: None, client_nonce: None })
+            }
+            _ if ctx.chance("der_overstated_length", 1, 4) => {
+                // the outer SEQUENCE announces (much) more than is sent, in a long-form length of 1..4 octets
+                let width = 1 + ctx.choose("der_len_width", 4) as usize;
+                let real = honest.len().saturating_sub(2 + if honest.get(1).map(|b| b & 0x80 != 0).unwrap_or(false) { (honest[1] & 0x7f) as usize } else { 0 });
+                let val: u64 = match ctx.choose("der_len_val", 6) { 0 => real as u64 + 1, 1 => 0xffff_ffff, 2 => 0x7fff_ffff, 3 => 0x1000_0000, 4 => 0x0080_0000, _ => real as u64 + 1 + ctx.choose("der_len_more", 70000) };
+                let val = val & ((1u64 << (8 * width)) - 1).max(0xff);
+                let body_off = honest.len() - real;
+                let mut out = vec![0x30, 0x80 | width as u8];
+                out.extend_from_slice(&val.to_be_bytes()[8 - width..]);
+                let keep = ctx.choose("der_keep", real as u64 + 1) as usize;
+                out.extend_from_slice(&honest[body_off..body_off + keep.min(real)]);
+                ctx.fault("der_overstated_length");
+                ctx.key_str("der_overstated_length");
+                ctx.key_add(width as u64);
+                ctx.ev("fault", format!("outer SEQUENCE announces {} bytes in {} length octets, {} sent", val, width, keep));
+                f2.borrow_mut().push("der-overstated-length".to_string());
+                out
             }
             _ => {
                 let w = mutate::der_fieldmap(honest);
